@@ -110,8 +110,11 @@ class Ctx:
         cov = dict(self.cov)
         cov.update(self.extra)
         if not cov['samples']: cov['samples'] = ['(none)']
-        if cov['evaluations'] < 1: cov['evaluations'] = max(1, cov['obligations'])
-        if cov['distinct_nontrivial'] < 2: cov['distinct_nontrivial'] = max(2, cov['discharged'])
+        if cov['discharged'] < 1 or cov['obligations'] < 1:
+            # proof stage did not complete: fall back to the generic keys (schema: generic_fallback)
+            cov['proof_stage_incomplete'] = {'obligations': cov.pop('obligations'), 'discharged': cov.pop('discharged')}
+        if cov['evaluations'] < 1: cov['evaluations'] = max(1, cov.get('obligations', 1))
+        if cov['distinct_nontrivial'] < 2: cov['distinct_nontrivial'] = max(2, cov.get('discharged', 2))
         ev = {'property_id': self.prop, 'tier': self.tier, 'seed': self.seed, 'level': self.level, 'coverage': cov,
               'assumptions': self.assumptions, 'wall_s': round(time.time() - self.t0, 2), 'violations': len(self.violations),
               'known_findings_hit': self.known_hits}
